@@ -108,7 +108,20 @@ func ZZ_C05_BeginBlock() {
 	if vrt.Thorough() {
 		nv = 2
 	}
-	keeper.ZZValidators(env, st.Chain(), nv, 8)
+	vs := keeper.ZZValidators(env, st.Chain(), nv, 8)
+	// signer-set state: the nonce counter may be ahead of what is stored (the latest set is pruned once a set with a
+	// higher nonce has been observed, and upgrade handlers move the counter), or a latest set is stored
+	if vrt.Bool("ss.counter") {
+		nonce := 1 + vrt.Uint64Below("ss.latestNonce", 1<<56)
+		k.SetLatestSignerSetTxNonce(ctx, st.Chain(), nonce)
+		if vrt.Bool("ss.stored") {
+			var signers types.ExternalSigners
+			for i, v := range vs {
+				signers = append(signers, &types.ExternalSigner{Power: vrt.Uint64Below("ss.power"+string(rune('0'+i)), 1<<32), ExternalAddress: v.Ext.Hex()})
+			}
+			k.SetOutgoingTx(ctx, st.Chain(), types.NewSignerSetTx(nonce, vrt.Uint64Below("ss.height", 1<<40), signers))
+		}
+	}
 	if vrt.Bool("observed") {
 		k.SetLastObservedExternalBlockHeight(ctx, st.Chain(), vrt.Uint64Below("extHeight", 1<<56))
 	}
